@@ -144,6 +144,7 @@ struct Obs {
   long kickoffs = 0;
   long maxInflight = 0;
   bool inflightAtDtorChecked = false;
+  bool dtorBeforeGateOpen = false;
 };
 
 template <typename Sched>
@@ -211,6 +212,7 @@ Obs runCase(const Spec& s) {
   uint64_t dtorRetStamp = 0;
   long inflightAtDtor = 0;
   uint64_t cancelRetStamp = 0;
+  bool dtorHandled = false;
   long allowedAfterCancel = -1; // >= 0: closed window established, at most this many invocations may ever start
   {
     dispenso::TimedTask task = s.sched > 0 ? doSchedule(*tts, *pool, s, firstLB) : doSchedule(*tts, imm, s, firstLB);
@@ -283,8 +285,31 @@ Obs runCase(const Spec& s) {
         vrt::gateArm(V::kTimedAfterCancelTest);
         o.gateReached = vrt::gateWaitArrived(V::kTimedAfterCancelTest, 3000);
         if (!o.gateReached) vrt::inconclusive("gate not reached");
-        // the only kick-off so far is parked before its wrapper exists; the destructor's cancel precedes every wrapper's test
-        if (o.gateReached && g_started.load(std::memory_order_relaxed) == 0) allowedAfterCancel = 0;
+        const long startedBefore = g_started.load(std::memory_order_relaxed);
+        // The handle is cancelled and destroyed on a helper thread: a destructor that (rightly) waits
+        // for the parked kick-off must not keep the harness from opening the gate.
+        std::unique_ptr<dispenso::TimedTask> victim(new dispenso::TimedTask(std::move(*tp)));
+        moved.reset();
+        std::atomic<int> cancelDone{0}, dtorDone{0};
+        std::thread helper([&] {
+          victim->cancel();
+          cancelDone.store(1, std::memory_order_relaxed);
+          vrt::progress();
+          victim.reset();
+          inflightAtDtor = g_inflight.load(std::memory_order_relaxed);
+          dtorRetStamp = vrt::stamp();
+          dtorDone.store(1, std::memory_order_relaxed);
+          vrt::progress();
+        });
+        while (!cancelDone.load(std::memory_order_relaxed)) usleep(50);
+        // the only kick-off so far is parked before its wrapper exists, and cancel() has returned:
+        // every wrapper's test comes later
+        if (o.gateReached && startedBefore == 0) allowedAfterCancel = 0;
+        o.dtorBeforeGateOpen = hs::pollUntil([&] { return dtorDone.load(std::memory_order_relaxed) != 0; }, 20);
+        vrt::gateOpen(V::kTimedAfterCancelTest);
+        helper.join();
+        o.inflightAtDtorChecked = true;
+        dtorHandled = true;
         break;
       }
       case kRetFalseGated: {
@@ -303,13 +328,13 @@ Obs runCase(const Spec& s) {
     // left to chance only in dtor-random); on a loaded machine that preemption can last many periods.
     if (s.scen == kCancelBeforeDue || s.scen == kCancelMid || s.scen == kCancelGatedPool) tts.reset();
     moved.reset();
-    if (s.moveHandle && !s.detach) {
+    if (!dtorHandled && s.moveHandle && !s.detach) {
       dtorRetStamp = vrt::stamp();
       inflightAtDtor = g_inflight.load(std::memory_order_relaxed);
       o.inflightAtDtorChecked = true;
     }
   } // ~TimedTask
-  if (!s.moveHandle && !s.detach) {
+  if (!dtorHandled && !s.moveHandle && !s.detach) {
     inflightAtDtor = g_inflight.load(std::memory_order_relaxed);
     dtorRetStamp = vrt::stamp();
     o.inflightAtDtorChecked = true;
@@ -480,6 +505,7 @@ void runC26() {
     if (s.scen == kCancelGatedPool && o.windowClosed && o.kickoffs >= 1) cls.push_back("cancel-gated-pool:wrapper-queued-before-cancel");
     if (s.scen == kDtorRandom && o.started >= 1) cls.push_back("dtor-random:after-some-invocations");
     if ((s.scen == kDtorGated || s.scen == kRetFalseGated) && o.gateReached) cls.push_back(std::string(sn[s.scen]) + ":gate-reached");
+    if (s.scen == kDtorGated && o.gateReached) cls.push_back(o.dtorBeforeGateOpen ? "dtor-gated:dtor-returned-while-parked" : "dtor-gated:dtor-waited-for-parked-kickoff");
     if (o.maxInflight >= 2) cls.push_back("overlapping-invocations");
     if (s.moveHandle) cls.push_back("moved-handle");
     bool nt = o.started >= 1 || o.windowClosed || o.gateReached;
